@@ -28,6 +28,7 @@ import (
 	"fmt"
 	"math"
 	"math/big"
+	"runtime/debug"
 	"sync"
 	"sync/atomic"
 	"testing"
@@ -82,7 +83,7 @@ func c45SmallUnsigned[T constraints.Unsigned](c *kit.Ctx, tname string, width ui
 		if stop.Load() {
 			break
 		}
-		for b := uint64(0); b <= max; b++ {
+		for b := uint64(0); b <= max && !stop.Load(); b++ {
 			x, y := T(a), T(b)
 			// OAdd
 			sum := a + b
@@ -164,7 +165,7 @@ func c45SmallSignedDivCeil[T constraints.Signed](c *kit.Ctx, tname string, width
 		if stop.Load() {
 			break
 		}
-		for b := int64(1); b <= max && a+b-1 <= max; b++ {
+		for b := int64(1); b <= max && a+b-1 <= max && !stop.Load(); b++ {
 			want := a / b
 			if a%b != 0 {
 				want++
@@ -204,7 +205,7 @@ func c45Parallel(c *kit.Ctx, n, chunk uint64, f func(lo, hi uint64) *c45Tally) {
 				}
 				var t *c45Tally
 				// a panic of the code under test on a worker goroutine must become a violation, not a dead process
-				if c.Guard("arith", fmt.Sprintf("chunk [%d,%d) of %d", lo, min(lo+chunk, n), n), func() { t = f(lo, min(lo+chunk, n)) }) {
+				if c.Guard("arith", fmt.Sprintf("chunk [%d,%d) of %d", lo, min(lo+chunk, n), n), func() { t = f(lo, min(lo+chunk, n)) }) || t == nil {
 					return
 				}
 				mu.Lock()
@@ -293,6 +294,17 @@ type c45Wide struct {
 	c    *kit.Ctx
 	t    *c45Tally
 	stop *atomic.Bool
+	cur  string   // which check is running, for panic witnesses
+	ops  []uint64 // its operands
+}
+
+// caught is deferred by the worker closures: a panic of the code under test becomes a violation
+// carrying the operands (c.Guard around the worker would lose them).
+func (w *c45Wide) caught() {
+	if r := recover(); r != nil {
+		w.c.Violation("panic:arith", map[string]any{"panic": fmt.Sprint(r), "check": w.cur, "operands": fmt.Sprint(w.ops), "stack": string(debug.Stack())})
+		w.stop.Store(w.c.Violations() > 20)
+	}
 }
 
 func (w *c45Wide) fail(key, helper string, operands any, want, got any) {
@@ -312,6 +324,7 @@ func (w *c45Wide) note(helper string, ov bool) {
 
 // pair checks every two-operand helper on (a,b).
 func (w *c45Wide) pair(a, b uint64) {
+	w.cur, w.ops = "pair", []uint64{a, b}
 	A, B := c45B(a), c45B(b)
 	sum := new(big.Int).Add(A, B)
 	diff := new(big.Int).Sub(A, B)
@@ -507,6 +520,7 @@ func (w *c45Wide) pair(a, b uint64) {
 
 // triple checks the multiply-divide helpers and the fraction split on (a,b,c).
 func (w *c45Wide) triple(a, b, c uint64) {
+	w.cur, w.ops = "triple (Muldiv a*b/c, Divvy)", []uint64{a, b, c}
 	A, B, C := c45B(a), c45B(b), c45B(c)
 	prod := new(big.Int).Mul(A, B)
 	op := []uint64{a, b, c}
@@ -558,6 +572,7 @@ func (w *c45Wide) triple(a, b, c uint64) {
 
 // quad checks Mul2div and FeeForUsage on (a,b,c,d); residue is used by FeeForUsage only.
 func (w *c45Wide) quad(a, b, c, d, residue uint64) {
+	w.cur, w.ops = "quad (Mul2div a*b*c/d, FeeForUsage residue)", []uint64{a, b, c, d, residue}
 	total := new(big.Int).Mul(new(big.Int).Mul(c45B(a), c45B(b)), c45B(c))
 	op := []uint64{a, b, c, d}
 	gq, gr, ov := Mul2div(a, Micros(b), Micros(c), d)
@@ -654,6 +669,7 @@ func TestVerifC45Wide(t *testing.T) {
 		// grid^2 and grid^3
 		c45Parallel(c, ng, 1, func(lo, hi uint64) *c45Tally {
 			w := &c45Wide{c: c, t: &c45Tally{}, stop: &stop}
+			defer w.caught()
 			for i := lo; i < hi && !stop.Load(); i++ {
 				for _, b := range grid {
 					w.pair(grid[i], b)
@@ -672,6 +688,7 @@ func TestVerifC45Wide(t *testing.T) {
 		ns := uint64(len(quadGrid))
 		c45Parallel(c, ns*ns, 4, func(lo, hi uint64) *c45Tally {
 			w := &c45Wide{c: c, t: &c45Tally{}, stop: &stop}
+			defer w.caught()
 			for i := lo; i < hi && !stop.Load(); i++ {
 				a, b := quadGrid[i/ns], quadGrid[i%ns]
 				for _, x := range quadGrid {
@@ -691,6 +708,7 @@ func TestVerifC45Wide(t *testing.T) {
 	c.Guard("wide", "random", func() {
 		c45Parallel(c, (nrand+chunk-1)/chunk, 1, func(lo, hi uint64) *c45Tally {
 			w := &c45Wide{c: c, t: &c45Tally{}, stop: &stop}
+			defer w.caught()
 			for ch := lo; ch < hi && !stop.Load(); ch++ {
 				r := c.Rand(45, ch)
 				for k := 0; k < chunk; k++ {
